@@ -3,5 +3,15 @@ from props import _generic as g
 
 
 def run(ctx):
-    g.run_pyvc(ctx, "C01")
-    return "proof", "under construction"
+    fns = g.run_pyvc(ctx, "C01")
+    ctx.standin("hist_rt", families=("OO", "II") if ctx.tier == "quick" else ("OO", "II", "LF", "QQ", "fs", "IO", "UU", "LL"),
+                args=["--mode", "model"])
+    return "proof", (
+        "Engine P: the leaf layer of the pure-Python implementation (_BucketBase._search, Bucket/Set _set, _del, "
+        "get, __getitem__, __contains__, __setitem__, __delitem__, setdefault, pop, add, remove, _split, clear, "
+        "__len__) and _Tree._search / _compat.compare are under contract (%d functions); each postcondition states "
+        "the whole new view (strictly sorted keys, exactly one slot changed/inserted/removed, all other entries "
+        "unchanged, result, exception class, contents unchanged on raise) and is discharged by z3 for all keys, "
+        "values and list lengths (keys are an arbitrary total order, hence all 22 families). The interior-node "
+        "level of both implementations and the C leaf layer are covered by the bounded stand-in hist_rt (model mode)."
+        % len(fns))
